@@ -171,6 +171,15 @@ func moves() []move {
 			})
 		}},
 		{"respq-replayed", "s2c", 1, func(e *env, v int, p []byte) []byte { return e.prev[1] }},
+		// pq without a non-trivial factorisation: 0, 1, small primes, a 63-bit prime (the factor search must
+		// fail cleanly: no division by zero, no endless loop)
+		{"respq-pq-unfactorable", "s2c", 1, func(e *env, v int, p []byte) []byte {
+			return reResPQ(p, func(m *mt.ResPQ) {
+				vals := []*big.Int{big.NewInt(0), big.NewInt(1), big.NewInt(2), big.NewInt(3), big.NewInt(1000003),
+					new(big.Int).SetUint64(9223372036854775783)} // largest prime below 2^63
+				m.Pq = vals[v%len(vals)].Bytes()
+			})
+		}},
 		// ---- Server_DH_Params ----
 		{"sdh-nonce-bitflip", "s2c", 2, func(e *env, v int, p []byte) []byte { return reSDH(p, func(m *mt.ServerDHParamsOk) { flip(m.Nonce[:], v) }) }},
 		{"sdh-server-nonce-bitflip", "s2c", 2, func(e *env, v int, p []byte) []byte {
@@ -314,6 +323,7 @@ type session struct {
 	res  exchange.ClientExchangeResult
 	err  error
 	pn   bool
+	hang bool
 	e    *env
 	link *xkit.Link
 }
@@ -351,9 +361,21 @@ func runSession(base *env, key exchange.PrivateKey, rc runCfg, mv *move) session
 		ex = ex.WithTempMode(3600)
 	}
 	s := session{e: e, link: l}
-	s.pn, _ = hx.Recover(func() {
-		s.res, s.err = ex.Client([]exchange.PublicKey{{RSA: &testutil.RSAPrivateKey().PublicKey}}).Run(ctx)
-	})
+	done := make(chan session, 1)
+	go func() {
+		r := session{e: e, link: l}
+		r.pn, _ = hx.Recover(func() {
+			r.res, r.err = ex.Client([]exchange.PublicKey{{RSA: &testutil.RSAPrivateKey().PublicKey}}).Run(ctx)
+		})
+		done <- r
+	}()
+	select {
+	case s = <-done:
+	case <-time.After(20 * time.Second):
+		// the client neither failed nor succeeded: it is spinning (no transport timeout is that long here)
+		s.hang = true
+		s.err = fmt.Errorf("watchdog: client still running after 20s")
+	}
 	l.Close()
 	return s
 }
@@ -401,6 +423,9 @@ func main() {
 		code := xkit.ErrClass(s.err)
 		if s.pn {
 			code = 99
+		}
+		if s.hang {
+			code = 98
 		}
 		name := rc.Move
 		if name == "" {
@@ -544,6 +569,8 @@ func main() {
 		c.Sample(js)
 		// ---------- oracle ----------
 		switch {
+		case s.hang:
+			c.Violate("client-hangs-"+name, fmt.Sprintf("move %s (variant %d): ClientExchange.Run neither failed nor returned within 20 s (CPU loop)", name, rc.Variant), sh, ix, rc)
 		case s.pn:
 			c.Violate("client-panic-"+name, fmt.Sprintf("move %s (variant %d): ClientExchange.Run panicked", name, rc.Variant), sh, ix, rc)
 		case mv == nil && s.err != nil:
@@ -575,10 +602,12 @@ func main() {
 			switch mv.Name { // moves with an enumerated set of substituted values: cover them all over the variants
 			case "inner-prime-substituted":
 				nv = 8
+			case "respq-pq-unfactorable":
+				nv = 6
 			case "inner-generator-substituted", "inner-ga-out-of-range":
 				nv = 10
 			}
-			if !c.Thorough() && nv > 1 {
+			if !c.Thorough() && nv > 1 && mv.Name != "respq-pq-unfactorable" {
 				// quick: three values per run, rotating with the seed
 				for k := 0; k < 3; k++ {
 					one(runCfg{Move: mv.Name, Variant: (int(c.Seed)*3 + k) % nv, Seed: c.Rng.U64(), Temp: c.Rng.Bool()}, mv)
@@ -594,6 +623,6 @@ func main() {
 			}
 		}
 	}
-	c.Obs.Rule = "one adversary move per exchange, every move of the library once per repetition (1 in quick, 12 in thorough) with a random bit position / the enumerated substituted values (all in thorough, three per run in quick): ResPQ {nonce, server_nonce, fingerprint flips; own RSA key; no fingerprints; pq > 2^63; replay}, Server_DH_Params {nonce flips; ciphertext flip / truncation / zeros; answer from a peer without new_nonce; replay; fail message; inner nonce flips; prime substituted by composite, non-safe prime, 2047/2049-bit, small, 0, 2^2047; prime bit flip; generator 0,1,8,9,-1 or failing the residue rule; g_a in {0,1,p-1,p,2,2^1984-5,2^1984,p-2^1984,p-2^1984+3,p+12345}}, dh_gen {nonce flips, hash flip / random, retry, fail, replay}, raw bit flips in each server message, bit flips in the encrypted parts of the client's messages; plus two honest baselines; non-trivial = distinct (move, variant, seed)"
+	c.Obs.Rule = "one adversary move per exchange, every move of the library once per repetition (1 in quick, 12 in thorough) with a random bit position / the enumerated substituted values (all in thorough, three per run in quick): ResPQ {nonce, server_nonce, fingerprint flips; own RSA key; no fingerprints; pq > 2^63; pq in {0,1,2,3,1000003, largest prime < 2^63}; replay}, Server_DH_Params {nonce flips; ciphertext flip / truncation / zeros; answer from a peer without new_nonce; replay; fail message; inner nonce flips; prime substituted by composite, non-safe prime, 2047/2049-bit, small, 0, 2^2047; prime bit flip; generator 0,1,8,9,-1 or failing the residue rule; g_a in {0,1,p-1,p,2,2^1984-5,2^1984,p-2^1984,p-2^1984+3,p+12345}}, dh_gen {nonce flips, hash flip / random, retry, fail, replay}, raw bit flips in each server message, bit flips in the encrypted parts of the client's messages; plus two honest baselines; non-trivial = distinct (move, variant, seed)"
 	c.Finish()
 }
